@@ -26,6 +26,7 @@ LIB = lib_errors()
 class _OS:
     """stand-in for the `os` module as seen by bromelia.base (only urandom is used there)"""
     seq: List[int] = []
+    two_valued = False
     i = 0
     log: List[bytes] = []
 
@@ -35,7 +36,14 @@ class _OS:
             raise AssertionError("urandom width")
         if cls.i >= len(cls.seq):
             raise IgnoreAttempt("random source exhausted (bound on draws)")
-        v = cls.seq[cls.i]
+        if cls.two_valued:
+            # concurrency queries: the source yields one of two values per draw (a boolean solver variable each);
+            # only the equality pattern of the draws matters to the code under test
+            from vf.h import traced
+            with traced():
+                v = 0x5eed0001 if cls.seq[cls.i] else 0x5eed0000
+        else:
+            v = cls.seq[cls.i]
         cls.i += 1
         b = v.to_bytes(4, "big")
         cls.log.append(b)
@@ -79,6 +87,13 @@ def _make(kind):
     raise KeyError(kind)
 
 
+def _fill(H, E):
+    """install a registry pre-state IN PLACE (the real container objects are kept, whatever their type)"""
+    for reg, vals in ((DiameterRequest.hop_by_hop_identifiers, H), (DiameterRequest.end_to_end_identifiers, E)):
+        reg.clear()
+        reg.extend(vals)
+
+
 def step(h: List[int], e: List[int], draws: List[int]) -> bool:
     """
     pre: len(h) == P["m"] and len(e) == P["m"] and len(draws) == P["d"]
@@ -88,8 +103,7 @@ def step(h: List[int], e: List[int], draws: List[int]) -> bool:
     """
     H = [x.to_bytes(4, "big") for x in h]
     E = [x.to_bytes(4, "big") for x in e]
-    DiameterRequest.hop_by_hop_identifiers = list(H)
-    DiameterRequest.end_to_end_identifiers = list(E)
+    _fill(H, E)
     _OS.seq, _OS.i, _OS.log = draws, 0, []
     r = _make(P["kind"])
     reached()
@@ -97,7 +111,7 @@ def step(h: List[int], e: List[int], draws: List[int]) -> bool:
     if REPLAY: note(registry_h=[x.hex() for x in H], registry_e=[x.hex() for x in E], hbh=hb.hex(), e2e=ee.hex(),
          draws=[x.hex() for x in _OS.log])
     fresh = hb not in H and ee not in E
-    inv = DiameterRequest.hop_by_hop_identifiers == H + [hb] and DiameterRequest.end_to_end_identifiers == E + [ee]
+    inv = list(DiameterRequest.hop_by_hop_identifiers) == H + [hb] and list(DiameterRequest.end_to_end_identifiers) == E + [ee]
     width = len(hb) == 4 and len(ee) == 4
     drawn = hb in _OS.log and ee in _OS.log
     return fresh and inv and width and drawn
@@ -110,8 +124,7 @@ def no_consume(h0: int, e0: int, hh: int, he: int) -> bool:
     """
     # answers and requests built from an explicit header never consume or alter identifiers
     H, E = [h0.to_bytes(4, "big")], [e0.to_bytes(4, "big")]
-    DiameterRequest.hop_by_hop_identifiers = list(H)
-    DiameterRequest.end_to_end_identifiers = list(E)
+    _fill(H, E)
     _OS.seq, _OS.i, _OS.log = [], 0, []          # any draw prunes -> would show up as unreachable/harness problem
     hdr = DiameterHeader(command_code=272, application_id=4, hop_by_hop=hh, end_to_end=he)
     drew = False
@@ -137,7 +150,7 @@ def no_consume(h0: int, e0: int, hh: int, he: int) -> bool:
         drew = True
         ok = False
     reached()
-    return (not drew) and ok and DiameterRequest.hop_by_hop_identifiers == H and DiameterRequest.end_to_end_identifiers == E
+    return (not drew) and ok and list(DiameterRequest.hop_by_hop_identifiers) == H and list(DiameterRequest.end_to_end_identifiers) == E
 
 
 def sequence(draws: List[int]) -> bool:
@@ -146,8 +159,7 @@ def sequence(draws: List[int]) -> bool:
     post: _
     """
     # bounded history from an empty registry: mixed classes, adversarially repeating random source
-    DiameterRequest.hop_by_hop_identifiers = []
-    DiameterRequest.end_to_end_identifiers = []
+    _fill([], [])
     _OS.seq, _OS.i, _OS.log = draws, 0, []
     reqs = [_make(k) for k in P["kinds"]]
     reached()
@@ -156,38 +168,104 @@ def sequence(draws: List[int]) -> bool:
     if REPLAY: note(hbh=[x.hex() for x in hs], e2e=[x.hex() for x in es])
     n = len(reqs)
     distinct = all(hs[i] != hs[j] and es[i] != es[j] for i in range(n) for j in range(i + 1, n))
-    return distinct and DiameterRequest.hop_by_hop_identifiers == hs and DiameterRequest.end_to_end_identifiers == es
+    return distinct and list(DiameterRequest.hop_by_hop_identifiers) == hs and list(DiameterRequest.end_to_end_identifiers) == es
 
 
-# ------------------------------------------------------------------ concurrency clause (E3)
-def concurrent(draws: List[int], sched: List[int]) -> bool:
+# ------------------------------------------------------------------ retention (native) and concurrency clause (E3)
+def retention():
+    """native enumeration: a history of 5000 requests (counting random source), then the oldest values are offered
+    again and must still be refused - identifiers are never forgotten (bounded by the history length; not a solver query)"""
+    _fill([], [])
+    N = 5000
+    _OS.seq, _OS.i, _OS.log = list(range(1, 2 * N + 1)), 0, []
+    first = None
+    for i in range(N):
+        r = _make("generic" if i % 50 else "DWR")
+        if first is None:
+            first = r
+    old_h = int.from_bytes(first.header.hop_by_hop, "big")
+    old_e = int.from_bytes(first.header.end_to_end, "big")
+    _OS.seq, _OS.i = [old_h, 2 * N + 10, old_e, 2 * N + 11], 0
+    r = _make("generic")
+    ok = r.header.hop_by_hop != first.header.hop_by_hop and r.header.end_to_end != first.header.end_to_end
+    if not ok:
+        return {"verdict": "cex", "detail": f"after {N} requests the identifiers of the first one are handed out again", "call": f"history of {N}",
+                "reproduced": True, "replay": {"verdict": "fails", "history": N}}
+    return {"verdict": "proved", "obligation": f"history of {N} requests, oldest identifiers still refused (enumeration)"}
+
+
+_CO = {}
+
+
+def _co_class():
+    """DiameterRequest with its constructor and the two draw-until-unused helpers re-compiled from source as coroutines:
+    a preemption point before every statement, os.urandom and the registry lock as blocking operations"""
+    if "cls" in _CO:
+        return _CO["cls"]
+    from vf import cosched as CS
+    rd = dict(vars(DiameterRequest))
+    names = ["__set_hop_by_hop_identifier", "__set_end_to_end_identifier", "__get_hop_by_hop_identifier", "__get_end_to_end_identifier", "acquire"]
+    body = {}
+    for k, v in rd.items():
+        if callable(v) and (k == "__init__" or k.startswith("_DiameterRequest__")):
+            body[k] = CS.coroutinize(v, names, lines=True, mangle="DiameterRequest", locks=["identifiers_lock"])
+    body["co_init"] = body.pop("__init__")
+    cls = type("CoRequest", (DiameterRequest,), body)
+    _CO["cls"] = cls
+    return cls
+
+
+try:                        # compiled at import time (outside CrossHair's tracer)
+    _co_class()
+except Exception as _e:     # coroutinisation target missing / not transformable: inconclusive, never a finding
+    _CO["error"] = _e
+
+
+def concurrent(draws: List[bool], sched: List[bool]) -> bool:
     """
-    pre: len(draws) == P["d"] and all(0 <= x < 2**32 for x in draws)
-    pre: len(sched) == P["K"] and all(0 <= c <= 1 for c in sched)
+    pre: len(draws) == P["d"] and len(sched) == P["K"]
     post: _
     """
+    from vf.h import untraced
+    with untraced():
+        _OS.two_valued = True
+        try:
+            return _concurrent(draws, sched)
+        finally:
+            _OS.two_valued = False
+
+
+def _concurrent(draws, sched):
     from vf import cosched as CS
-    DiameterRequest.hop_by_hop_identifiers = []
-    DiameterRequest.end_to_end_identifiers = []
+    if "error" in _CO:
+        raise IgnoreAttempt(f"coroutinisation failed: {_CO['error']}")
+    Co = _co_class()
+    _fill([], [])
+    if hasattr(DiameterRequest, "identifiers_lock"):
+        Co.identifiers_lock = DiameterRequest.identifiers_lock = CS.HLock()
     _OS.seq, _OS.i, _OS.log = draws, 0, []
     got = {}
-    Req = CS.preemptible_request_class()
 
     def thread(name):
-        r = yield from Req.create()
+        r = Co.__new__(Co)
+        yield from Co.co_init(r, command_code=316, application_id=16777251)
         got[name] = r
-    s = CS.Sched(sched)
-    s.spawn("T1", thread("T1"))
-    s.spawn("T2", thread("T2"))
+    s = CS.Sched(sched, max_preempt=P.get("maxp"))
+    for i in range(P["T"]):
+        s.spawn(f"T{i}", thread(f"T{i}"))
     try:
         s.run()
     except CS.Prune:
         raise IgnoreAttempt("schedule bound")
+    except CS.Deadlock:
+        reached()
+        return False
     reached()
-    a, b = got["T1"], got["T2"]
-    if REPLAY: note(t1=(a.header.hop_by_hop.hex(), a.header.end_to_end.hex()), t2=(b.header.hop_by_hop.hex(), b.header.end_to_end.hex()),
-         schedule=list(sched))
-    return a.header.hop_by_hop != b.header.hop_by_hop and a.header.end_to_end != b.header.end_to_end
+    rs = [got[f"T{i}"] for i in range(P["T"])]
+    if REPLAY: note(ids=[(r.header.hop_by_hop.hex(), r.header.end_to_end.hex()) for r in rs], schedule=s.trace)
+    n = len(rs)
+    return all(rs[i].header.hop_by_hop != rs[j].header.hop_by_hop and rs[i].header.end_to_end != rs[j].header.end_to_end
+               for i in range(n) for j in range(i + 1, n))
 
 
 def queries(tier, seed):
@@ -203,6 +281,12 @@ def queries(tier, seed):
                     what=f"{kind}: registries and random source untouched"))
     seqs = [(["generic", "DWR"], 5)] if tier == "quick" else [(["generic", "DWR"], 5), (["generic", "generic", "generic"], 7),
                                                                    (["DWR", "STR", "generic"], 7)]
+    qs.append(Q("native/retention", "retention", engine="py", cto=120, what="history of 5000 requests, the oldest identifiers are still refused"))
+    qs.append(Q("concurrent/T2/P1", "concurrent", {"T": 2, "d": 5, "K": 60, "maxp": 1}, cto=t, pto=t,
+                what="2 threads creating requests at source-line granularity, <= 1 preemption, 5 two-valued symbolic draws (repeats allowed)"))
+    if tier != "quick":
+        qs.append(Q("concurrent/T2/P2", "concurrent", {"T": 2, "d": 6, "K": 80, "maxp": 2}, cto=1800, pto=1800, what="2 threads, <= 2 preemptions"))
+        qs.append(Q("concurrent/T3/P2", "concurrent", {"T": 3, "d": 9, "K": 90, "maxp": 2}, cto=1800, pto=1800, what="3 threads, <= 2 preemptions"))
     for kinds_, d in seqs:
         qs.append(Q(f"sequence/{'-'.join(kinds_)}/d{d}", "sequence", {"kinds": kinds_, "d": d}, cto=t, pto=t,
                     what=f"history {kinds_} with {d} symbolic draws"))
@@ -211,7 +295,8 @@ def queries(tier, seed):
 
 BOUNDS = ["registry size m <= 2 (quick) / 3 (thorough), contents symbolic; random draws d <= 4/6 symbolic 32-bit values",
           "request classes: generic + DWR/STR (quick) + CER (thorough)"]
-OUTSIDE = ["more than d draws before a fresh value appears (the loop is unbounded by design)",
+OUTSIDE = ["more than d draws before a fresh value appears (the loop is unbounded by design)", "histories longer than 5000 requests in the retention probe",
+           "preemption inside a single statement; more than 1 (quick) / 2 preemptions; random values beyond the equal/different pattern in the concurrency queries",
            "registries larger than m (covered inductively: the step is checked from an arbitrary registry satisfying the invariant)"]
 ASSUMPTIONS = ["os.urandom(4) returns arbitrary 4-byte values (stub: next element of a symbolic list)",
                "registry invariant: hop_by_hop_identifiers/end_to_end_identifiers hold exactly the ids issued so far"]
